@@ -129,6 +129,52 @@ def run(tier):
         texts.extend(ws)
     uniq = sorted(set(texts))
     outs = dict(zip(uniq, chem.convert_all(uniq)))
+    # the same for glycans that convert only under full=False (one undetermined linkage or one unsupported modification)
+    import re as _re
+    pgroups = []
+    for t, ws in groups[:(25 if tier == "quick" else 200)]:
+        kind = r.choice(["q", "mod"])
+        def spoil(w):
+            if kind == "q":
+                return _re.sub(r"\(([ab])(\d)-(\d)\)", r"(?\2-\3)", w, count=1)
+            return _re.sub(r"(Glc|Man|Gal)\(", r"\g<1>6Leu(", w, count=1)
+        # spoil the same residue / linkage in every writing: mark it in the tree instead of the text
+        tj = t.to_json()
+        nodes_ = []
+        def walk_(j):
+            nodes_.append(j)
+            for k_ in j["kids"]:
+                walk_(k_[3])
+        walk_(tj)
+        cand = [j for j in nodes_ if j["kids"]]
+        if not cand:
+            continue
+        victim = r.choice(cand)["kids"][0]
+        if kind == "q":
+            victim[0] = "?"
+        else:
+            if victim[3]["name"] not in ("Glc", "Man", "Gal") or any(k_[2] == 6 for k_ in victim[3]["kids"]):
+                victim[0] = "?"
+            else:
+                victim[3]["name"] += "6Leu"
+        t2 = T.from_json(tj)
+        variants = [t2.to_json()] + permutations_of(t2, 6 if tier == "quick" else 20, r)
+        pgroups.append([T.render(T.from_json(v)) for v in variants])
+    puniq = sorted(set(w for g_ in pgroups for w in g_))
+    pouts = dict(zip(puniq, chem.convert_all(puniq, kw={"full": False})))
+    ptodo = sorted(set((pouts[g_[0]]["smiles"], pouts[w]["smiles"]) for g_ in pgroups for w in g_[1:] if pouts[g_[0]]["smiles"] and pouts[w]["smiles"]))
+    pverdict = dict(zip(ptodo, chem.same_many(ptodo)))
+    n_partial = 0
+    for g_ in pgroups:
+        base_ = pouts[g_[0]]["smiles"]
+        for w in g_[1:]:
+            o_ = pouts[w]["smiles"]
+            n_partial += 1
+            report.case("full=False: " + g_[0] + " ~ " + w, True)
+            if bool(base_) != bool(o_) or (base_ and not pverdict[(base_, o_)]):
+                report.fail({"site": "order", "kind": "different-molecule-full-false"},
+                            {"written": g_[0], "permuted": w, "options": {"full": False}, "results": [base_, o_],
+                             "problem": "under full=False two writings of the same partially convertible tree give different results"})
     n_pairs = 0
     todo = sorted(set((outs[ws[0]]["smiles"], outs[w]["smiles"]) for t, ws in groups for w in ws[1:]
                       if outs[ws[0]]["smiles"] and outs[w]["smiles"]))
@@ -157,7 +203,7 @@ def run(tier):
                     {"no_failing_input": True, "what_no_longer_checks": broken, "theorems": names_thm})
     report.assumptions = ["molecule identity is Iso.same_molecule (constitution + tetrahedral parity; E/Z of fatty acyl double bonds is not compared)"]
     extra = {"rule": "trees with at least one branching residue (up to four substituents, on root and non-root residues, ketose and N-linked parents); for each, all permutations of the substituents of one residue at a time (which includes the choice of the unbracketed main chain); distinct pairs of writings",
-             "pairs": n_pairs, "print_assumptions": res.assumptions.get(f"Props/{PROP}.v", "").strip().splitlines()[-3:],
+             "pairs": n_pairs, "pairs_full_false_partial": n_partial, "print_assumptions": res.assumptions.get(f"Props/{PROP}.v", "").strip().splitlines()[-3:],
              "partial": "whole-tree permutation invariance is decided per input; proved: atom-level commutation of two condensations"}
     return report.finish("proof", ob, dis, names_thm, trusted=C.TRUSTED, extra=extra)
 
